@@ -124,3 +124,26 @@ extern "C" void harness_p4() {
   delete m;
   v_witness("p4");
 }
+
+extern "C" void harness_p5() {
+  TopologyKernel m;
+  m.add_n_vertices(2);
+  auto b = m.request_property<bool, Entity::Vertex>("a", true);
+  if (v_param(0) == 1) { v_witness("cut"); return; }
+  V_ASSERT(b[VH(0)] == true);
+  V_ASSERT(m.n_props<Entity::Vertex>() == 1);
+  v_witness("p5");
+}
+
+extern "C" void harness_p6() {
+  TopologyKernel m;
+  m.add_n_vertices(2);
+  auto a = m.request_property<int, Entity::Vertex>("a", 1);
+  auto b = m.request_property<int, Entity::Vertex>("b", 2);
+  if (v_param(0) == 1) { v_witness("cut"); return; }
+  V_ASSERT(b[VH(0)] == 2);
+  V_ASSERT(m.n_props<Entity::Vertex>() == 2);
+  m.add_vertex();
+  V_ASSERT(a.size() == 3 && b.size() == 3);
+  v_witness("p6");
+}
